@@ -18,6 +18,32 @@ def _arm_token(arm):
     return vs[0] if len(vs) == 1 and vs[0] in TOKENS else None
 
 
+def guard_rule(chk, fx):
+    CG = 'crates/erg_compiler/codegen.rs'
+    chk.rule('C33-guard', 'the run-time test of an arm is evaluated on the scrutinee as it is: in PyCodeGenerator::emit_match_pattern both kinds of generated guard — `%p in T` '
+                          '(ContainsOp) and `%p == literal` (DblEq) — have the static type of the scrutinee side reset to Obj before the guard is emitted, so the value is not first '
+                          'converted to the arm\'s type (`Nat("a")` raises ValueError although a later arm matches)')
+    f = fx.fn(CG, 'PyCodeGenerator::emit_match_pattern')
+    seen = {}
+    for n in T.walk(f['body']):
+        if n.get('k') != 'If':
+            continue
+        lc = [x for x in T.walk(n['c']) if x.get('k') == 'LetCond']
+        if not lc:
+            continue
+        kinds = {(x.get('d') or '').split('::')[-1] for x in T.walk(lc[0]['pat']) if x.get('k') in ('PPath', 'PStruct', 'PTupleStruct') and 'TokenKind::' in (x.get('d') or '')}
+        assigns = [a for a in T.walk(n['t']) if a.get('k') == 'Assign' and T.peel(a['y']).get('k') == 'Path' and (T.peel(a['y']).get('d') or '').endswith('Type::Obj')]
+        for k_ in kinds:
+            seen[k_] = seen.get(k_, False) or bool(assigns)
+    for k_, what in (('ContainsOp', '`%p in T`'), ('DblEq', '`%p == literal`')):
+        if seen.get(k_):
+            chk.ok('C33-guard', k_, sample='%s guards: the operand type is reset to Obj' % what)
+        else:
+            chk.bad('C33-guard', 'PyCodeGenerator::emit_match_pattern', 'typed-operand:' + k_, 'the %s guard of a match arm is emitted with its operand still typed as the arm pattern: the '
+                    'scrutinee is converted to that type first, and a value of another member of the scrutinee union (a Str, None) raises ValueError / TypeError before the arm that '
+                    'would match it is tried' % what, CG, f['line'])
+
+
 def interval_rule(chk, fx):
     """the static meaning of an interval type (`l<..<r` as a refinement predicate) against the run-time test emitted for the same operator (the Range class's __contains__)"""
     import ast
@@ -204,6 +230,7 @@ def run(chk):
     else:
         chk.bad('C33-union', 'Context::get_match_call_t', 'union', 'the type compared with the scrutinee (`%s`) is not accumulated with self.union over all arms' % union_local, FILE, target['l'])
     interval_rule(chk, fx)
+    guard_rule(chk, fx)
     # the exhaustiveness test is `scrutinee type <: union of the arm types`: its union arms decide whether every member of a scrutinee union is covered
     chk.rule('C33-union', 'in Context::structural_supertype_of every arm whose sub side is a union answers for all its members, every arm whose super side is a union for some member '
                           '(shared with C06-union): with `any` on the sub side the literal arms for one member of `{"a", "b"} or Int` count as covering the whole scrutinee')
